@@ -683,6 +683,40 @@ pub fn par_for_ctx(ctx: &Ctx, n: usize, f: impl Fn(usize)) {
     }
 }
 
+/// Run `f` in a freshly forked child process and return the string it produces (None if the
+/// child died). Used where "no earlier evaluation in this process / thread" has to be literal.
+pub fn in_fresh_process(f: impl FnOnce() -> String) -> Option<String> {
+    use std::io::Read;
+    use std::os::fd::FromRawFd;
+    let mut fds = [0i32; 2];
+    if unsafe { libc::pipe(fds.as_mut_ptr()) } != 0 {
+        return None;
+    }
+    let pid = unsafe { libc::fork() };
+    if pid < 0 {
+        return None;
+    }
+    if pid == 0 {
+        IN_CHILD.store(true, Ordering::Relaxed);
+        unsafe { libc::close(fds[0]) };
+        let out = match catch(f) {
+            Ok(s) => s,
+            Err(p) => format!("<panic in child: {}>", p),
+        };
+        let mut file = unsafe { std::fs::File::from_raw_fd(fds[1]) };
+        let _ = std::io::Write::write_all(&mut file, out.as_bytes());
+        drop(file);
+        unsafe { libc::_exit(0) };
+    }
+    unsafe { libc::close(fds[1]) };
+    let mut file = unsafe { std::fs::File::from_raw_fd(fds[0]) };
+    let mut text = String::new();
+    let _ = file.read_to_string(&mut text);
+    let mut status = 0i32;
+    unsafe { libc::waitpid(pid, &mut status, 0) };
+    if libc::WIFEXITED(status) && libc::WEXITSTATUS(status) == 0 { Some(text) } else { None }
+}
+
 /// Parallel map preserving order.
 pub fn par_map<T: Sync, R: Send>(items: &[T], f: impl Fn(&T) -> R + Sync) -> Vec<R> {
     let slots: Vec<Mutex<Option<R>>> = items.iter().map(|_| Mutex::new(None)).collect();
